@@ -187,8 +187,9 @@ class Poly:
             r = r * self
         return r
 
-    def divexact(self, d, raw_limit=400):
+    def divexact(self, d, raw_limit=4000):
         """Quotient q with q*d == self (plain polynomial arithmetic) or None."""
+        import heapq
         if d.is_zero():
             return None
         dc = d.as_const()
@@ -198,34 +199,54 @@ class Poly:
             return Poly({})
         if not d.vars() <= self.vars():
             return None
-        lm_d, lc_d = d.lead()
-        lmd = dict(lm_d)
-        p = self
+        for v in self.vars():
+            if v not in _VAR_INDEX:
+                _VAR_INDEX[v] = len(_VAR_INDEX)
+        nv = len(_VAR_INDEX)
+
+        def key(m):
+            vec = [0] * nv
+            deg = 0
+            for v, e in m:
+                vec[_VAR_INDEX[v]] = e
+                deg += e
+            return (deg,) + tuple(vec)
+        dterms = [(key(m), m, c) for m, c in d.t.items()]
+        kd, lm_d, lc_d = max(dterms)
+        # a quick necessary condition: total degrees
+        rem = dict(self.t)
+        heap = [tuple(-x for x in key(m)) + (m,) for m in rem]
+        heapq.heapify(heap)
         q = {}
         it = 0
-        while p.t:
+        while heap:
+            item = heapq.heappop(heap)
+            m = item[-1]
+            c = rem.get(m)
+            if c is None or c == 0:
+                rem.pop(m, None)
+                continue
             it += 1
             if it > raw_limit:
                 return None
-            lm_p, lc_p = p.lead()
-            dp = dict(lm_p)
-            quo = {}
-            ok = True
-            for v, e in lmd.items():
-                pe = dp.get(v, 0)
-                if pe < e:
-                    ok = False
-                    break
-            if not ok:
+            km = tuple(-x for x in item[:-1])
+            # m must be divisible by lm_d
+            qk = [a_ - b_ for a_, b_ in zip(km, kd)]
+            if min(qk[1:]) < 0:
                 return None
-            for v, e in dp.items():
-                ne = e - lmd.get(v, 0)
-                if ne:
-                    quo[v] = ne
-            qm = tuple(sorted(quo.items()))
-            qc = lc_p / lc_d
+            qm = tuple(sorted((v, qk[1 + i]) for v, i in _VAR_INDEX.items() if i < nv and qk[1 + i] > 0))
+            qc = c / lc_d
             q[qm] = q.get(qm, 0) + qc
-            p = p - Poly({qm: qc}).mul_raw(d)
+            for _, m2, c2 in dterms:
+                mm = mono_mul(qm, m2)
+                old = rem.get(mm)
+                newv = (old or 0) - qc * c2
+                if newv == 0:
+                    rem.pop(mm, None)
+                else:
+                    rem[mm] = newv
+                    if old is None:
+                        heapq.heappush(heap, tuple(-x for x in key(mm)) + (mm,))
         return Poly({m: c for m, c in q.items() if c != 0})
 
     # z3
@@ -284,30 +305,29 @@ def reduce_roots(p):
     """rewrite r^k (k>=2) using r^2 = radicand for registered root variables."""
     if not ROOT_RADICAND:
         return p
-    changed = True
-    guard = 0
-    while changed:
-        changed = False
-        guard += 1
-        if guard > 50:
-            break
-        for m in list(p.t):
+    while True:
+        todo = [(m, c) for m, c in p.t.items() if any(e >= 2 and v in ROOT_RADICAND for v, e in m)]
+        if not todo:
+            return p
+        d = dict(p.t)
+        for m, _ in todo:
+            del d[m]
+        acc = Poly(d)
+        for m, c in todo:
+            term = Poly({(): c})
+            rest = []
             for v, e in m:
                 if e >= 2 and v in ROOT_RADICAND:
-                    c = p.t[m]
-                    rest = tuple((x, k) for x, k in m if x != v)
-                    if e - 2:
-                        rest = tuple(sorted(rest + ((v, e - 2),)))
-                    d = dict(p.t)
-                    del d[m]
-                    base = Poly(d)
-                    add = Poly({rest: c}).mul_raw(ROOT_RADICAND[v])
-                    p = base + add
-                    changed = True
-                    break
-            if changed:
-                break
-    return p
+                    rad = ROOT_RADICAND[v]
+                    for _ in range(e // 2):
+                        term = term.mul_raw(rad)
+                    if e % 2:
+                        rest.append((v, 1))
+                else:
+                    rest.append((v, e))
+            term = term.mul_raw(Poly({tuple(sorted(rest)): Fraction(1)}))
+            acc = acc + term
+        p = acc
 
 
 def root_of(radicand):
@@ -506,11 +526,15 @@ class RatFn:
         return p
 
     def z3_cmp(self, op):
-        """z3 Bool for  self <op> 0,  op in '<', '<=', '>', '>=', '==', '!='."""
+        """z3 Bool for  self <op> 0,  op in '<', '<=', '>', '>=', '==', '!='.
+        sign(self) = sign(num * prod(atoms with odd power)); the product is left to z3 (not expanded)."""
         if op in ('==', '!='):
             z = self.num.z3()
             return z == 0 if op == '==' else z != 0
-        z = self.sign_poly().z3()
+        z = self.num.z3()
+        for a, k in self.den:
+            if k % 2 == 1 and not _known_positive(a):
+                z = z * a.z3()
         if op == '<':
             return z < 0
         if op == '<=':
@@ -547,3 +571,28 @@ def _known_positive(a):
             return True
     # sums of even powers with positive coefficients and a positive constant
     return False
+
+
+def substitute(f, mapping):
+    """f with variables replaced by RatFns (mapping: var name -> RatFn)."""
+    def sub_poly(p):
+        acc = RatFn.const(0)
+        for m, c in p.t.items():
+            term = RatFn.const(c)
+            rest = []
+            for v, e in m:
+                if v in mapping:
+                    for _ in range(e):
+                        term = term * mapping[v]
+                else:
+                    rest.append((v, e))
+            if rest:
+                term = term * RatFn(Poly({tuple(rest): Fraction(1)}))
+            acc = acc + term
+        return acc
+    out = sub_poly(f.num)
+    for a, k in f.den:
+        d = sub_poly(a)
+        for _ in range(k):
+            out = out / d
+    return out
